@@ -25,8 +25,24 @@ def _log_q(q: DistributionModel, samples: torch.Size) -> torch.Tensor:
     return log_q
 
 
+class VariationalObjective(CallableModel):
+    """Base class of objectives estimated from samples of the variational
+    distribution.
+
+    The value is a Monte Carlo estimate: every evaluation request draws fresh
+    samples from ``q`` and evaluates ``p`` and ``q`` at those samples, so the
+    value of a previous request is never returned again (``lp`` holds the last
+    estimate).
+    """
+
+    def __call__(self, *args, **kwargs) -> torch.Tensor:
+        self.lp = self._call(*args, **kwargs)
+        self.lp_needs_update = False
+        return self.lp
+
+
 @register_class
-class ELBO(CallableModel):
+class ELBO(VariationalObjective):
     r"""Class representing the evidence lower bound (ELBO) objective.
 
     The ELBO is defined as
@@ -111,7 +127,7 @@ class ELBO(CallableModel):
 
 
 @register_class
-class KLpq(CallableModel):
+class KLpq(VariationalObjective):
     r"""Calculate inclusive Kullback-Leibler divergence from q to p
     :math:`\text{KL}(p\|q)` using self-normalized importance sampling
     gradient estimator.
@@ -169,7 +185,7 @@ class KLpq(CallableModel):
 
 
 @register_class
-class KLpqImportance(CallableModel):
+class KLpqImportance(VariationalObjective):
     r"""Class for minimizing inclusive Kullback-Leibler divergence
     from q to p :math:`\text{KL}(p\|q)` using self-normalized importance
     sampling gradient estimator.
@@ -240,7 +256,7 @@ def _from_json(cls, data, dic):
 
 
 @register_class
-class SELBO(CallableModel):
+class SELBO(VariationalObjective):
     r"""Class representing the stratified evidence lower bound (SELBO) objective.
 
     Maximizing the SELBO is equivalent to minimizing exclusive Kullback-Leibler
